@@ -142,7 +142,11 @@ func zzCookieRequestOnlyForClientHello() {
 func zzCfgHelloVerifyOnlySkippedOnRequest() {
 	cfg := &dtlsConfig{}
 	cfg.InsecureSkipVerify = zzsymChoice("insecure_skip_verify", 2) == 1
-	cfg.InsecureSkipVerifyHello = zzsymChoice("insecure_skip_verify_hello", 2) == 1
+	// the option is applied twice with arbitrary values (a base option list and an override): the LAST one decides
+	first, last := zzsymChoice("first_skip_hello_option", 2) == 1, zzsymChoice("insecure_skip_verify_hello", 2) == 1
+	zzsymAssert(WithInsecureSkipVerifyHello(first).applyServer(cfg) == nil, "option_applies")
+	zzsymAssert(WithInsecureSkipVerifyHello(last).applyServer(cfg) == nil, "option_applies")
+	zzsymAssert(cfg.InsecureSkipVerifyHello == last, "hello_verify_option_last_value_wins")
 	cfg.ClientAuth = ClientAuthType(zzsymChoice("client_auth", 5))
 	hc := newHandshakeConfig(cfg, connConfigValues{}, nil)
 	zzsymAssert(hc.InsecureSkipHelloVerify == cfg.InsecureSkipVerifyHello, "cookie_exchange_skipped_only_on_explicit_request")
